@@ -24,6 +24,10 @@ from datetime import datetime as _datetime, timedelta as _timedelta     # noqa: 
 _EPOCH = _datetime(2020, 1, 1)
 
 
+from collections import namedtuple as _namedtuple                       # noqa: E402
+NT = _namedtuple('NT', ['a', 'b'])
+
+
 class Boom(Exception):
     """injected user-function failure (C13)"""
 
@@ -74,6 +78,8 @@ _FUNCS = {
     'upto': lambda k: (lambda i: list(range(i % k))),
     'opt': lambda k: (lambda i: None if i % k == 0 else i),
     'half': lambda: (lambda i: i / 2),
+    'nt': lambda k: (lambda i: NT(a=None if i % k == 0 else i, b=i)),
+    'ntsum': lambda: (lambda n: (n.a or 0) + n.b),
     'tofloat': lambda: (lambda i: float(i)),
     # float -> int
     'trunc': lambda: (lambda x: int(x)),
@@ -233,7 +239,7 @@ _reg('to_list', '*', 'x', lambda n, e: rs.data.to_list(), ['dual', 'stateful', '
 _reg('to_array', 'i', 'x', lambda n, e: rs.data.to_array(n[1]), ['dual', 'stateful', 'completion'])
 _reg('duc', '*', _same, lambda n, e: rs.ops.distinct_until_changed(fn(n[1], e) if n[1] else None), ['dual', 'stateful'])
 _reg('clip', 'if', _same, lambda n, e: rs.data.clip(n[1], n[2]), ['dual'])
-_reg('fill_none', 'o', 'i', lambda n, e: rs.data.fill_none(n[1]), ['dual'])
+_reg('fill_none', 'on', lambda t, n: 'i' if t == 'o' else 'n', lambda n, e: rs.data.fill_none(n[1]), ['dual'])
 _reg('batch', '*', 'x', lambda n, e: rs.data.batch(n[1]), ['dual', 'stateful', 'completion'])
 _reg('identity', '*', _same, lambda n, e: rs.ops.identity(), ['dual'])
 _reg('do_action', '*', _same, lambda n, e: rs.ops.do_action(on_next=(e or {}).get('do_action', lambda i: None)), ['dual'])
@@ -257,7 +263,7 @@ CONTEXTS = ('group_by', 'roll', 'split', 'time_split', 'tee_map')
 FUNC_SIG = {
     'add': ('i', 'i'), 'mul': ('i', 'i'), 'mod': ('i', 'i'), 'div': ('i', 'i'), 'neg': ('i', 'i'), 'id': ('*', None),
     'pair': ('i', 't'), 'pairmod': ('i', 't'), 'rep': ('i', 'l'), 'upto': ('i', 'l'), 'opt': ('i', 'o'),
-    'half': ('i', 'f'), 'tofloat': ('i', 'f'), 'trunc': ('f', 'i'), 'scale10': ('f', 'i'),
+    'half': ('i', 'f'), 'tofloat': ('i', 'f'), 'nt': ('i', 'n'), 'ntsum': ('n', 'i'), 'trunc': ('f', 'i'), 'scale10': ('f', 'i'),
     't0': ('t', 'i'), 't1': ('t', 'i'), 'tsum': ('t', 'i'), 'len': ('l', 'i'), 'lsum': ('l', 'i'),
     'isnone': ('o', 'i'), 'digest': ('*', 'i'), 'raise_on': ('*', None),
 }
@@ -283,11 +289,11 @@ def out_type(node, t):
     return o
 
 
-INT_FUNCS = {'add', 'mul', 'mod', 'div', 'neg', 'pair', 'pairmod', 'rep', 'upto', 'opt', 'half', 'tofloat', 'even', 'odd',
+INT_FUNCS = {'add', 'mul', 'mod', 'div', 'neg', 'pair', 'pairmod', 'rep', 'upto', 'opt', 'half', 'tofloat', 'nt', 'even', 'odd',
              'modeq', 'modne', 'modtruthy', 'kt', 'ks', 'kbig', 'kf', 'kmix', 'divt', 'divs', 'divbig', 'divpar'}
 NUM_FUNCS = {'gt', 'lt', 'trunc', 'scale10'}
 ANY_FUNCS = {'id', 'digest', 'dgt', 'true', 'false', 'kdig', 'digpar'}
-TYPED_FUNCS = {'t0': 't', 't1': 't', 'tsum': 't', 'len': 'l', 'lsum': 'l', 'isnone': 'o'}
+TYPED_FUNCS = {'t0': 't', 't1': 't', 'tsum': 't', 'len': 'l', 'lsum': 'l', 'isnone': 'o', 'ntsum': 'n'}
 INT_ACCS = {'acc_add', 'acc_addsq', 'acc_max', 'acc_pair'}
 
 
